@@ -47,7 +47,12 @@ def choice_spec(pv, seed):
     if not zeros:
         return
     g = np.random.default_rng(seed)
-    draws = g.choice(len(pv), size=400, p=pv)
+    try:
+        draws = g.choice(len(pv), size=400, p=pv)
+    except ValueError:
+        # the vector the real code produced is not a probability vector (does not sum to 1): nothing to say about numpy here;
+        # the lottery case built from the same vector reports it (mass oracle / correspondence), so this is not a harness error
+        return
     SPEC["n"] += 1
     if any(int(d) in zeros for d in draws):
         SPEC["bad"] += 1
